@@ -742,6 +742,14 @@ func (ex *Exec) evCall(x *SCall, env *Env) Val {
 		return ex.ev(x.Args[i], env)
 	}
 	switch x.Fn {
+	case "preloop":
+		// value of the expression in the state in which the loop was entered
+		if env.li == nil || env.li.entryState == nil {
+			ex.specFail("preloop() outside a loop invariant")
+		}
+		n := *env
+		n.st = env.li.entryState
+		return ex.ev(x.Args[0], &n)
 	case "len":
 		a := arg(0)
 		switch a.T.S {
@@ -815,10 +823,13 @@ func (ex *Exec) evCall(x *SCall, env *Env) Val {
 		if env.li == nil {
 			ex.specFail("visited() outside loop")
 		}
-		for v, it := range ex.iterMaps {
-			_ = v
-			if ex.iterLoop[it.name] == env.li.header {
-				return Val{T: ex.getHeap(st, it.name, ArrS(SInt, SBool)), Ty: tySet}
+		for b := range env.li.blocks {
+			for _, in := range b.Instrs {
+				if nx, ok := in.(*ssa.Next); ok {
+					if it, ok := ex.iterMaps[nx.Iter]; ok {
+						return Val{T: ex.getHeap(st, it.name, ArrS(SInt, SBool)), Ty: tySet}
+					}
+				}
 			}
 		}
 		ex.specFail("no map iterator for this loop")
@@ -1023,13 +1034,28 @@ func (ex *Exec) checkFrame(env *Env, pos token.Pos) {
 	}
 	allowed := map[string][]*Term{} // heap name -> refs that may change ; nil slice + whole => any
 	whole := map[string]bool{}
-	penv := ex.envAt(ex.init, nil)
-	penv.entry = true
+	penv0 := ex.envAt(ex.init, nil)
+	penv0.entry = true
+	mentionsResult := func(e SExpr) bool {
+		t := show(e)
+		for name := range env.vars {
+			if strings.HasPrefix(name, "result") && strings.Contains(t, name) {
+				return true
+			}
+		}
+		return false
+	}
 	for _, cl := range ex.spec.Clauses {
 		if cl.Kind != "modifies" {
 			continue
 		}
 		for _, e := range cl.Exprs {
+			// targets rooted at a result are evaluated in the final state
+			// (they denote objects the call allocated); all others in the pre-state
+			penv := penv0
+			if mentionsResult(e) {
+				penv = env
+			}
 			switch x := e.(type) {
 			case *SIdent:
 				whole[x.Name] = true
